@@ -37,7 +37,7 @@ type c19Signer struct {
 
 type c19Fixtures struct {
 	absA, absB, absC, absInvalid *refmodel.Claims
-	k1, k2                       *fixtures.Key
+	k1, k2, k384                 *fixtures.Key
 	signers                      []c19Signer
 	tokens                       []struct {
 		name    string
@@ -58,14 +58,15 @@ func flipAt(tok []byte, needle []byte, off int) []byte {
 
 func newC19Fixtures() *c19Fixtures {
 	cl := c02Claims()
-	f := &c19Fixtures{absA: cl[0], absB: cl[2], absC: cl[3], k1: fixtures.Get("ES256", 1), k2: fixtures.Get("ES256", 2)}
+	f := &c19Fixtures{absA: cl[0], absB: cl[2], absC: cl[3], k1: fixtures.Get("ES256", 1), k2: fixtures.Get("ES256", 2), k384: fixtures.Get("ES384", 1)}
 	inv := *cl[0]
 	inv.ImplID = bp(pat(31, 1))
 	f.absInvalid = &inv
-	k384 := fixtures.Get("ES384", 1)
+	k384 := f.k384
 	f.signers = []c19Signer{
 		{"good-k1", f.k1, func() cose.Signer { return f.k1.Signer() }},
 		{"good-k2", f.k2, func() cose.Signer { return f.k2.Signer() }},
+		{"good-k384-other-algorithm", k384, func() cose.Signer { return k384.Signer() }},
 		{"returns-error", nil, func() cose.Signer {
 			return fakeSigner{cose.AlgorithmES256, func(io.Reader, []byte) ([]byte, error) { return nil, errors.New("hsm unavailable") }}
 		}},
@@ -318,7 +319,7 @@ func c19System() bfs.System {
 					_, _ = cp.Sign(fx.k2.Signer())
 				case 3:
 					if cp.Claims != nil {
-						_, _ = cp.Sign(fx.signers[2].signer())
+						_, _ = cp.Sign(fx.signers[3].signer()) // the signer that returns an error
 					}
 				}
 				if last && deephash.Take(ev, snapOpts).Canon != before {
@@ -362,6 +363,15 @@ func c19System() bfs.System {
 				}
 			}
 		}
+		v3 := ev.Verify(fx.k384.Pub)
+		if raw384 := present && len(sig) > 0 && prot != nil && rawVerify("ES384", fx.k384.Pub, prot, payload, sig); raw384 {
+			sigClass = "valid-" + fx.k384.Name
+		} else if v3 == nil {
+			fail("C19:verify-disagrees-with-independent-check", "Verify(%s) succeeds but the signature does not verify over the held envelope", fx.k384.Name)
+		}
+		if v3 == nil && failedSign {
+			fail("C19:verifies-after-failed-sign", "Verify(%s) succeeds although the last signing attempt failed", fx.k384.Name)
+		}
 		for _, t := range returned {
 			if !bytes.Equal(t[0], t[1]) {
 				fail("C19:returned-token-changed", "a token returned earlier was modified by a later operation")
@@ -376,7 +386,7 @@ func c19System() bfs.System {
 		}
 		ph := sha256.Sum256(payload)
 		out.Key = fmt.Sprintf("claims=%x replaced=%v failedSign=%v msg=%v prot=%x payload=%x/%d sig=%s", sha256.Sum256([]byte(claims)), replaced, failedSign, present, prot, ph[:8], len(payload), sigClass)
-		out.Obs = fmt.Sprintf("verify(k1)=%v verify(k2)=%v claims=%s json=%x", v1 == nil, v2 == nil, claims, sha256.Sum256([]byte(cj)))
+		out.Obs = fmt.Sprintf("verify(k1)=%v verify(k2)=%v verify(k384)=%v claims=%s json=%x", v1 == nil, v2 == nil, v3 == nil, claims, sha256.Sum256([]byte(cj)))
 		return out
 	}
 	return bfs.System{NumOps: len(ops), OpName: func(i int) string { return ops[i].name }, Run: run}
